@@ -170,7 +170,7 @@ def c01(tier, seed):
             return [ALL_MODES[i % 6] + [{}], ALL_MODES[(i + 3) % 6] + [{}]]
         return [m + [{}] for m in ALL_MODES]
 
-    jobs = _run_jobs_for(seed + 100, 5 if quick else 32, "c01g", runs_of, modes_of, match_async=True, fam=("slow_side_node", "slow_producer"))
+    jobs = _run_jobs_for(seed + 100, 5 if quick else 32, "c01g", runs_of, modes_of, match_async=True, fam=("slow_side_node", "slow_producer", "same_generation_pair"))
     # the async side of the pair: the same worker validates nothing about the threaded runtime; that is C02-C04's business. Here
     # the two probe logs are compared step by step (clauses MatchesAsync_*) and the compiled log must be a run of RexRun.
     results, run_items, vs, metas = _run_campaign(rep, jobs, {"C01"})
@@ -208,7 +208,7 @@ def c08(tier, seed):
         ms = [ALL_MODES[(i * 2 + j) % 6] + [{"extra_padding": pads[(i + j) % 3]}] for j in range(2 if quick else 6)]
         return ms
 
-    jobs = _run_jobs_for(seed + 200, 4 if quick else 20, "c08r", runs_of, modes_of, fam=("slow_producer", "slow_producer", "slow_side_node"))
+    jobs = _run_jobs_for(seed + 200, 5 if quick else 20, "c08r", runs_of, modes_of, fam=("same_generation_pair", "slow_producer", "slow_producer", "same_generation_pair", "slow_side_node"))  # positions 0 and 3 run with extra_padding 0
     jobs += _run_jobs_for(seed + 250, 2 if quick else 12, "c08g", runs_of, modes_of, source="generate")
     results, run_items, vs, metas = _run_campaign(rep, jobs, {"C08"})
     # user-supplied buffer sizes: every admissible size must work, a size below the minimum must be refused by rex
